@@ -331,6 +331,11 @@ func TestC01DroppedBuilder(t *testing.T) {
 
 // ---- library call forms and pointers into a moving stack (hand-written)
 
+type MT struct{ base int }
+
+//go:noinline
+func (m *MT) Price(a int) int { return m.base*100 + a }
+
 //go:noinline
 func Rot(r rune) rune { return r }
 
@@ -383,6 +388,29 @@ func TestC01Library(t *testing.T) {
 	if ran != 1 || onceOrig != 0 {
 		rep.Violate("C01/library-call-not-diverted", fmt.Sprintf("sync.Once.Do(OnceBody): replacement ran %d times, original %d", ran, onceOrig), nil)
 	}
+	// a method given to Func as a method value (documented form): every call form of the method must be diverted
+	{
+		mt, other := &MT{base: 1}, &MT{base: 2}
+		b.Func(mt.Price).Return(4242)
+		var iface interface{ Price(int) int } = other
+		fv := other.Price
+		viaGo := make(chan int, 1)
+		go func() { viaGo <- other.Price(3) }()
+		got := []int{mt.Price(1), other.Price(2), iface.Price(3), (*MT).Price(other, 4), fv(5), <-viaGo}
+		deferred := 0
+		func() {
+			defer func() { deferred = other.Price(6) }()
+		}()
+		got = append(got, deferred)
+		rep.Eval(int64(len(got)))
+		rep.Class("method-value-target")
+		for i, g := range got {
+			if g != 4242 {
+				rep.Violate("C01/method-value-target-not-diverted", fmt.Sprintf("Func(obj.Method).Return(4242): call form %d (direct, other instance, interface, method expression, method value, goroutine, deferred) returned %d: %v", i, g, got), nil)
+				break
+			}
+		}
+	}
 	// pointers to stack variables as arguments while the stack is moved inside the replacement
 	moved := 0
 	b.Func(Fill).Apply(func(p *int, q *[4]int64) int {
@@ -413,7 +441,7 @@ func TestC01Library(t *testing.T) {
 	rep.Stat("stack_moves_observed_inside_replacement", int64(moved))
 	rep.Class("stack-pointer-arguments")
 	b.Reset()
-	if os.Getenv("VERIF_C01_NOPE") != "" || strings.Map(Rot, "a") != "a" || !Less(1, 2) {
+	if os.Getenv("VERIF_C01_NOPE") != "" || strings.Map(Rot, "a") != "a" || !Less(1, 2) || (&MT{base: 3}).Price(1) != 301 {
 		rep.Violate("C01/not-original-after-reset", "library targets not original after Reset", nil)
 	}
 	rep.Sample(map[string]interface{}{"form": "os.ExpandEnv -> os.Getenv", "result": got})
